@@ -49,7 +49,7 @@ def evaluate(prop, history):
     from travsim import oracles
     fn = getattr(oracles, "check_" + prop)
     extra = {}
-    if prop in ("C02", "C08", "C07", "C05", "C15", "C09", "C06"):
+    if prop in ("C02", "C08", "C15", "C20"):
         from travsim import resolver
         extra = resolver.context_for(prop, history)
     return fn(history, **extra)
